@@ -64,6 +64,15 @@ type c14Scenario struct {
 	InvalidCoop        bool // the taker sends a coop_close that fails validation while the maker waits for the payment
 	Mine               int
 	Advance            time.Duration
+	Hint               string // free-text message of the injected cancel / coop_close ("" = a short ASCII one)
+}
+
+// long free-text hints whose 255th..257th bytes fall inside a multi-byte character (peers choose these freely)
+var c14LongHints = []string{
+	strings.Repeat("あ", 100),       // 3-byte characters, 300 bytes
+	"x" + strings.Repeat("é", 200), // 2-byte characters at odd offsets, 401 bytes
+	"ab" + strings.Repeat("😀", 70), // 4-byte characters, 282 bytes
+	strings.Repeat("ü", 64) + strings.Repeat("あ", 60) + strings.Repeat("z", 2000),
 }
 
 func c14Scenarios() []c14Scenario {
@@ -88,6 +97,11 @@ func c14Scenarios() []c14Scenario {
 		{Name: "out-btc-agreementlost-timeout", Typ: "out", Chain: "btc", FaultNode: "bob", FaultOp: "msg.send:42075", Advance: 48 * time.Hour},
 		{Name: "in-btc-invalidcoop", Typ: "in", Chain: "btc", InvalidCoop: true, Mine: 2},
 		{Name: "out-lbtc-invalidcoop", Typ: "out", Chain: "lbtc", InvalidCoop: true, Mine: 2},
+		{Name: "out-btc-csv-longhint0", Typ: "out", Chain: "btc", CsvAfterCancel: true, Mine: 1010, Hint: c14LongHints[0]},
+		{Name: "in-lbtc-csv-longhint1", Typ: "in", Chain: "lbtc", CsvAfterCancel: true, Mine: 10100, Hint: c14LongHints[1]},
+		{Name: "in-btc-invalidcoop-longhint2", Typ: "in", Chain: "btc", InvalidCoop: true, Mine: 2, Hint: c14LongHints[2]},
+		{Name: "out-lbtc-invalidcoop-longhint3", Typ: "out", Chain: "lbtc", InvalidCoop: true, Mine: 2, Hint: c14LongHints[3]},
+		{Name: "out-btc-invalidcoop-longhint0", Typ: "out", Chain: "btc", InvalidCoop: true, Mine: 2, Hint: c14LongHints[0]},
 	}
 }
 
@@ -211,7 +225,11 @@ func c14RunScenario(seed int64, s c14Scenario, rng *mrand.Rand) (writes []c14Wri
 	if s.InvalidCoop {
 		// the taker's identity sends a coop_close whose key does not parse: the maker's record goes through the
 		// invalid-message path
-		pl := []byte(fmt.Sprintf(`{"swap_id":%q,"message":"x","privkey":"zz"}`, lastID))
+		hint := "x"
+		if s.Hint != "" {
+			hint = s.Hint
+		}
+		pl := []byte(fmt.Sprintf(`{"swap_id":%q,"message":%q,"privkey":"zz"}`, lastID, hint))
 		if s.Typ == "out" {
 			w.InjectMsg(a.ID, "bob", 0xa461, pl)
 		} else {
@@ -220,7 +238,11 @@ func c14RunScenario(seed int64, s c14Scenario, rng *mrand.Rand) (writes []c14Wri
 		w.Run()
 	}
 	if s.CsvAfterCancel {
-		pl := []byte(fmt.Sprintf(`{"swap_id":%q,"message":"taker gives up"}`, lastID))
+		hint := "taker gives up"
+		if s.Hint != "" {
+			hint = s.Hint
+		}
+		pl := []byte(fmt.Sprintf(`{"swap_id":%q,"message":%q}`, lastID, hint))
 		if s.Typ == "out" {
 			a.Crash()
 			w.InjectMsg(a.ID, "bob", 0xa45f, pl)
